@@ -254,7 +254,7 @@ Proof. vm_compute. reflexivity. Qed.
    (C13), Order.v (C15), CollFilters.v (C16), Builtins.v (C17), Component.v (C05), Format.v (C19)
    with FloatFmt.v for `{:?}` of f64.  Family `vm1` runs the real chunks in that world. *)
 From TeraV Require Model.World1 Model.Number Model.Order Model.Component Model.Format Model.Builtins
-  Proofs.World1Proofs Proofs.World1Compile Proofs.NumCmpProofs.
+  Proofs.World1Proofs Proofs.World1Compile Proofs.World1Format Proofs.NumCmpProofs.
 
 (* the main theorem transfers: World1 satisfies the two world hypotheses of C03_compile_correct
    (string kwargs keys become owned string keys; no built-in filter reads the VM state), for any
@@ -276,12 +276,10 @@ Proof. exact World1Compile.compile_correct_world1. Qed.
    values; `<` between undefined/none/bool/integer/string operands; default, length, upper on
    ASCII text, safe on strings (`pushed` = the value ApplyFilter pushes: World0 flags `safe` as an
    is_safe filter, the engine and World1 do not -- the filter mints the safe string itself);
-   tests defined/undefined.
-   PARTIAL: w_format is not covered (World0 prints integers with VFormat.z_to_str, World1 with
-   Format.dec: the two decimal printers are not proved equal; family vm1 compares the text);
-   World0 has no arithmetic, functions or components to agree with.  Outside the subset World0 is
-   NOT the engine (see C03_world0_is_a_toy). *)
-Theorem C03_world1_extends_world0_partial : forall tpls comps,
+   tests defined/undefined.  w_format: C03_world1_format_extends_world0 below.  World0 has no
+   arithmetic, functions or components to agree with (ErrOther / None there).  Outside the subset
+   World0 is NOT the engine (see C03_world0_is_a_toy). *)
+Theorem C03_world1_extends_world0 : forall tpls comps,
   let w1 := World1.world1 tpls comps in
   let w0 := world0 tpls in
   w_templates w1 = w_templates w0 /\
@@ -305,6 +303,14 @@ Theorem C03_world1_extends_world0_partial : forall tpls comps,
   (forall v k, w_test w1 n_defined v k = w_test w0 n_defined v k) /\
   (forall v k, w_test w1 n_undefined v k = w_test w0 n_undefined v k).
 Proof. exact World1Proofs.world1_extends_world0. Qed.
+
+(* Value::format: Format.v (C19) with World1's oracles prints what VFormat.v (World0) prints for
+   every well-formed value without floats and byte strings -- in particular the two decimal
+   printers (Coq's Z.to_int and the division loop of VFormat.z_to_str) give the same numeral *)
+Theorem C03_world1_format_extends_world0 : forall tpls comps v,
+  Order.wf v -> World1Format.plain v = true ->
+  w_format (World1.world1 tpls comps) v = w_format (world0 tpls) v.
+Proof. exact (fun _ _ => World1Format.format1_format_value). Qed.
 
 (* where the toy world is not the engine (all three outside what the `vm` family generates):
    arrays are ordered, `safe` formats a non-string receiver, an ill-formed "unsigned -1" key *)
@@ -363,7 +369,8 @@ Theorem C03_models_agree_on_escape_html : forall s, Builtins.escape_html s = esc
 Proof. exact World1Proofs.escape_html_builtins. Qed.
 
 Print Assumptions C03_compile_correct_world1.
-Print Assumptions C03_world1_extends_world0_partial.
+Print Assumptions C03_world1_extends_world0.
+Print Assumptions C03_world1_format_extends_world0.
 Print Assumptions C03_world0_is_a_toy.
 Print Assumptions C03_models_agree_on_keys.
 Print Assumptions C03_models_agree_on_lookups.
